@@ -611,4 +611,223 @@ def getlist (env : Env) (key : Str) : List Str := Hdr.getlist (iter env) key
 
 end EH
 
+/-! ## plain dict mutators (`dict`, `TypeConversionDict`) -/
+namespace PyDict
+variable {κ α : Type} [DecidableEq κ]
+
+inductive Op (κ α : Type) where
+  | setitem (k : κ) (v : α)
+  | delitem (k : κ)
+  | clear
+  | popitem
+  | update (l : List (κ × α))
+  | setdefault (k : κ) (v : α)
+  | pop (k : κ) (dflt : Option α)
+deriving Repr, DecidableEq
+
+/-- a mutator of `dict`: new state and result (`none` = returns None) -/
+def step (d : Dict κ α) : Op κ α → Dict κ α × Except String (Option α)
+  | .setitem k v => (set d k v, .ok none)
+  | .delitem k => if has d k then (erase d k, .ok none) else (d, .error "KeyError")
+  | .clear => ([], .ok none)
+  | .popitem =>
+    match popitem d with
+    | some (e, d') => (d', .ok (some e.2))
+    | none => (d, .error "KeyError")
+  | .update l => (l.foldl (fun a e => set a e.1 e.2) d, .ok none)
+  | .setdefault k v =>
+    match get? d k with
+    | some x => (d, .ok (some x))
+    | none => (set d k v, .ok (some v))
+  | .pop k dflt =>
+    match get? d k with
+    | some x => (erase d k, .ok (some x))
+    | none => match dflt with
+      | some x => (d, .ok (some x))
+      | none => (d, .error "KeyError")
+
+/-- the Python method name of each mutator -/
+def opName : Op κ α → String
+  | .setitem .. => "__setitem__"
+  | .delitem _ => "__delitem__"
+  | .clear => "clear"
+  | .popitem => "popitem"
+  | .update _ => "update"
+  | .setdefault .. => "setdefault"
+  | .pop .. => "pop"
+
+end PyDict
+
+/-! ## TypeConversionDict -/
+namespace TCD
+open PyDict
+variable {κ ν τ : Type} [DecidableEq κ]
+
+/-- `TypeConversionDict.get(key, default, type)`; `conv v = none` = the callable raised ValueError /
+TypeError -/
+def get (conv : ν → Option τ) (d : Dict κ ν) (k : κ) (dflt : Option τ) : Option τ :=
+  match get? d k with
+  | none => dflt
+  | some v =>
+    match conv v with
+    | some x => some x
+    | none => dflt
+
+/-- `get(key, default)` without `type` -/
+def getPlain (d : Dict κ ν) (k : κ) (dflt : Option ν) : Option ν :=
+  match get? d k with
+  | none => dflt
+  | some v => some v
+
+end TCD
+
+/-! ## FileMultiDict -/
+namespace FMD
+open Hdr
+
+/-- what a `FileStorage` holds, as far as the container is concerned: the identity of the stream
+object and the three descriptive attributes -/
+structure FS where
+  stream : Nat
+  filename : Option Str
+  name : Option Str
+  contentType : Option Str
+deriving Repr, DecidableEq
+
+/-- the `file` argument of `add_file` -/
+inductive FileArg where
+  /-- a `FileStorage`: stored as it is -/
+  | storage (fs : FS)
+  /-- a path (`str` / `PathLike`): opened; `handle` is the identity of the opened file -/
+  | path (p : Str) (handle : Nat)
+  /-- any other object: used as the stream -/
+  | stream (handle : Nat)
+deriving Repr, DecidableEq
+
+/-- the `FileStorage` that `add_file(name, file, filename, content_type)` stores; `guess` is
+`mimetypes.guess_type(filename)[0]` -/
+def mkStorage (guess : Str → Option Str) (name : Str) (f : FileArg) (filename ct : Option Str) : FS :=
+  match f with
+  | .storage fs => fs
+  | .path p h =>
+    let fname := match filename with | some x => x | none => p
+    let ct' := if !fname.isEmpty && ct.isNone then some ((guess fname).getD "application/octet-stream".toList) else ct
+    ⟨h, some fname, some name, ct'⟩
+  | .stream h =>
+    let truthy := match filename with | some x => !x.isEmpty | none => false
+    let ct' := if truthy && ct.isNone then some ((guess (filename.getD [])).getD "application/octet-stream".toList) else ct
+    ⟨h, filename, some name, ct'⟩
+
+/-- `FileMultiDict.add_file` -/
+def addFile (guess : Str → Option Str) (c : MD.St Str FS) (name : Str) (f : FileArg) (filename ct : Option Str) :
+    MD.St Str FS :=
+  MD.add c name (mkStorage guess name f filename ct)
+
+end FMD
+
+/-! ## immutable variants: the mutators the generated table lists answer TypeError -/
+namespace Imm
+
+/-- names the immutable class `cls` blocks, from the regenerated table -/
+def blocked (cls : String) : List String :=
+  match Gen.Containers.immTable.find? (·.1 == cls) with
+  | some (_, _, _, b) => b
+  | none => []
+
+/-- mutator names of the mutable base of `cls`, from the regenerated table -/
+def mutators (cls : String) : List String :=
+  match Gen.Containers.immTable.find? (·.1 == cls) with
+  | some (_, _, m, _) => m
+  | none => []
+
+/-- calling method `name` on an instance of the immutable class `cls` whose state is `c`: a blocked
+name raises TypeError and leaves the state, any other name runs the inherited method -/
+def call {σ ρ : Type} (cls name : String) (run : σ → σ × Except String ρ) (c : σ) : σ × Except String ρ :=
+  if (blocked cls).contains name then (c, .error "TypeError") else run c
+
+/-- the Python method name of each mutator of the MultiDict model -/
+def mdOpName {κ ν : Type} : MD.Op κ ν → String
+  | .setitem .. => "__setitem__"
+  | .delitem _ => "__delitem__"
+  | .add .. => "add"
+  | .setlist .. => "setlist"
+  | .setdefault .. => "setdefault"
+  | .setlistdefault .. => "setlistdefault"
+  | .update _ => "update"
+  | .ior _ => "__ior__"
+  | .pop .. => "pop"
+  | .popitem => "popitem"
+  | .poplist _ => "poplist"
+  | .popitemlist => "popitemlist"
+  | .clear => "clear"
+
+/-- the Python method name of each mutator of the Headers model -/
+def hdrOpName : Hdr.Op → String
+  | .add .. => "add"
+  | .set .. => "set"
+  | .setlist .. => "setlist"
+  | .setdefault .. => "setdefault"
+  | .setlistdefault .. => "setlistdefault"
+  | .extend .. => "extend"
+  | .update .. => "update"
+  | .setitemKey .. => "__setitem__"
+  | .setitemIdx .. => "__setitem__"
+  | .setitemSlice .. => "__setitem__"
+  | .delitemKey _ => "__delitem__"
+  | .delitemIdx _ => "__delitem__"
+  | .delitemSlice _ => "__delitem__"
+  | .remove _ => "remove"
+  | .popLast => "pop"
+  | .popKey .. => "pop"
+  | .popIdx _ => "pop"
+  | .popitem => "popitem"
+  | .clear => "clear"
+  | .ior _ => "__ior__"
+
+/-- a mutator call on an `ImmutableMultiDict` (`cls`), on the dict-of-lists state -/
+def mdStep {κ ν : Type} [DecidableEq κ] (cls : String) (c : MD.St κ ν) (op : MD.Op κ ν) : MD.Res κ ν (MD.Ret κ ν) :=
+  call cls (mdOpName op) (fun c => MD.step c op) c
+
+/-- a mutator call on an `ImmutableDict` / `ImmutableTypeConversionDict` -/
+def dictStep {κ α : Type} [DecidableEq κ] (cls : String) (d : PyDict.Dict κ α) (op : PyDict.Op κ α) :
+    PyDict.Dict κ α × Except String (Option α) :=
+  call cls (PyDict.opName op) (fun d => PyDict.step d op) d
+
+/-- a mutator call on an `EnvironHeaders` (immutable `Headers`), on the `_list` state -/
+def hdrStep (cls : String) (l : Hdr.HList) (op : Hdr.Op) : Hdr.Res Hdr.Ret :=
+  call cls (hdrOpName op) (fun l => Hdr.step l op) l
+
+end Imm
+
+/-! ## pickling, copying, equality and hashing as functions of the state -/
+namespace Pickle
+open PyDict
+variable {κ ν α : Type} [DecidableEq κ]
+
+/-- `dict(iterable of pairs)` / `dict.update(d, mapping)` -/
+def dictOf (acc : Dict κ α) (ps : List (κ × α)) : Dict κ α := ps.foldl (fun d e => set d e.1 e.2) acc
+
+/-- `MultiDict.__getstate__` : `dict(self.lists())` -/
+def mdGetstate (c : MD.St κ ν) : Dict κ (List ν) := dictOf [] (MD.lists c)
+
+/-- `MultiDict.__setstate__(value)`: `dict.clear(self); dict.update(self, value)` -/
+def mdSetstate (_old : MD.St κ ν) (value : Dict κ (List ν)) : MD.St κ ν := dictOf [] value
+
+/-- `ImmutableMultiDictMixin.__reduce_ex__` : rebuilt as `cls(list(self.items(multi=True)))` -/
+def imdRebuild (c : MD.St κ ν) : MD.St κ ν := MD.construct (some (.pairs (MD.itemsMulti c)))
+
+/-- `MultiDict.copy()` = `cls(self)` : `(k, vs[:]) for k, vs in mapping.lists()` -/
+def mdCopy (c : MD.St κ ν) : MD.St κ ν := MD.construct (some (.multi c))
+
+/-- `MultiDict.deepcopy()` = `cls(deepcopy(self.to_dict(flat=False)))` (values are atoms here): the
+`Mapping` branch of the constructor, which skips a key without values -/
+def mdDeepcopy (c : MD.St κ ν) : MD.St κ ν :=
+  MD.construct (some (.mapping ((dictOf [] (MD.lists c)).map fun e => (e.1, MD.MVal.many e.2))))
+
+/-- `dict.__eq__` on two dicts: same number of entries and every entry of the first is in the second -/
+def dictEq [DecidableEq α] (a b : Dict κ α) : Bool :=
+  a.length == b.length && a.all (fun e => b.lookup e.1 == some e.2)
+
+end Pickle
+
 end Wz
